@@ -9,6 +9,7 @@ use crate::hook::{arm_hook, disarm_hook};
 
 pub fn exec(c: &[i64]) -> Vec<i64> {
     if c[0] == 1000 { return crate::authrig::exec(&c[1..]); }
+    if c[0] == 3000 { return crate::c01r::exec(&c[1..]); }
     let (da, sa) = (c[0] as u8, c[1] as u8);
     let evs = c[2..].to_vec();
     let r = std::panic::catch_unwind(move || {
@@ -214,6 +215,37 @@ pub fn gen(o: &Opts, sink: &mut dyn FnMut(Vec<i64>, String)) {
             }
         }
         c.push(2);
+        sink(c, String::new());
+    }
+    // the same property through the real Runtime::schedule_net_service (the three tasks as glonaxd schedules them),
+    // commands published on the runtime command channel: single commands, bursts below and far above the
+    // queue capacity (any object kinds) with the last motion command among the newest ones - in particular a
+    // final stop-all -, then control cycles. An overrun only skips the oldest; the command task goes on.
+    let n = if o.tier_thorough { 1_500 } else { 150 };
+    for j in 0..n {
+        k += 1;
+        if !mine(o, k) { continue; }
+        let mut rng = Rng::new(o.seed, 9_500_000 + j);
+        let (da, sa): (i64, Option<i64>) = match rng.below(4) { 0 => (0x4A, Some(0x31)), 1 => (0x01, None), _ => (0x4A, None) };
+        let mut c = vec![3000]; c.extend(crate::c10::config(&[(1, da, sa, 1)]));
+        let mut m = Vec::new();
+        let rounds = 1 + rng.below(4);
+        for r in 0..rounds {
+            // a drive command is in force
+            letter(4 + rng.below(2), da, sa.unwrap_or(0x27), &mut rng, &mut m); c.extend(&m); m.clear();
+            c.push(3); for _ in 0..rng.below(3) { c.push(0); }
+            // the burst
+            let burst = match (j + r) % 6 { 0 => rng.below(4), 1 => 14 + rng.below(4), 2 => 17 + rng.below(20), 3 => 100 + rng.below(200), 4 => 16, _ => rng.below(40) } as usize;
+            let tail = rng.below(15) as usize;        // non-motion objects after the last motion command: it stays among the newest 16
+            for _ in 0..burst {
+                if rng.chance(1, 2) { c.push(7); c.push(*rng.pick(&[2i64, 3, 4, 6])); }
+                else { letter(1 + rng.below(5), da, sa.unwrap_or(0x27), &mut rng, &mut m); c.extend(&m); m.clear(); }
+            }
+            if rng.chance(3, 4) { c.extend([1, 0]); } else { letter(1 + rng.below(5), da, sa.unwrap_or(0x27), &mut rng, &mut m); c.extend(&m); m.clear(); }
+            for _ in 0..tail { c.push(7); c.push(*rng.pick(&[2i64, 3, 4, 6])); }
+            c.push(3); c.push(0); c.push(0);
+            if rng.chance(1, 3) { c.push(0); }
+        }
         sink(c, String::new());
     }
 }
